@@ -859,19 +859,44 @@ def tables_exact(check, prog):
             I = intern(('cmp', 'in', key, a))
             val = intern(('idx', a, key))
             va = rows['array']['value']
-            ok = cs(rows['array']) == [(R, True)] and \
-                cs(rows['plain']) == [(R, False), (I, True)] and \
-                cs(rows['none']) == [(R, False), (I, False)] and \
-                va[2] == (val,) and kw(va, 'coords') == R and \
+            # The writer marks an array-valued attribute with the dict of its
+            # coordinates -- which is *empty* for a 0-d array -- and everything else
+            # with False.  The reader's test must separate False from every dict:
+            # `is not False`, `!= False` or isinstance(.., dict); plain truthiness
+            # sends the empty dict down the plain-value path.
+            from .common import canon_cond
+            FALSE_ = ('const', False)
+
+            def is_array_test(t, pol):
+                if t[0] == 'cmp' and t[1] in ('is', '==') and {t[2], t[3]} == {R, FALSE_}:
+                    return not pol
+                if t[0] == 'cmp' and t[1] in ('is not', '!=') and {t[2], t[3]} == {R, FALSE_}:
+                    return pol
+                if t[0] == 'call' and t[1] == 'isinstance' and len(t[2]) == 2 and \
+                        t[2][0] == R and 'dict' in show(t[2][1]):
+                    return pol
+                return None
+            ca, cp_, cn = (canon_cond(cs(rows[k])) for k in ('array', 'plain', 'none'))
+            disc = len(ca) == 1 and is_array_test(*ca[0]) is True
+            neg = lambda c: len(c) == 2 and is_array_test(*c[0]) is False
+            ok = disc and neg(cp_) and neg(cn) and \
+                cp_[1] == (I, True) and cn[1] == (I, False) and \
+                any(x == val for x in subterms(va[2][0])) and kw(va, 'coords') == R and \
                 rows['plain']['value'][2] == (val,) and \
                 all(e['key'] == key for e in rows.values())
             detail = 'array when %s; plain when %s; None when %s' % tuple(
                 [(show(t)[:40], p) for t, p in cs(rows[k])]
                 for k in ('array', 'plain', 'none'))
+            if not disc:
+                detail += ': the coordinate-table entry of a 0-d array attribute is the ' \
+                    'empty dict, which this test does not tell from False -- an image ' \
+                    'whose noise_sd is a 0-d DataArray (every load_average result) ' \
+                    'saves but cannot be loaded'
     check.require(ok, 'U2-reader-table', 'unpack_attrs rows',
-                  'coordinate table entry truthy -> DataArray(a[attr], coords=entry); '
-                  'falsy and attr stored -> safe_load(a[attr]); falsy and not stored '
-                  '-> None', loc, fail_detail=detail)
+                  'coordinate table entry not False -> DataArray(a[attr], coords=entry), '
+                  'also for the empty entry of a 0-d array; False and attr stored -> '
+                  'safe_load(a[attr]); False and not stored -> None', loc,
+                  fail_detail=detail)
     # ---- pack_attrs
     q = IO + 'pack_attrs'
     fd = prog.func(q)
